@@ -2388,22 +2388,22 @@ fn sweep_sixseven(prop: &str, seed: u64, thorough: bool) -> Sweep {
         let got = guarded(|| {
             if n == 6 {
                 let h = Six::from([ws[0], ws[1], ws[2], ws[3], ws[4], ws[5]]);
-                (h.hand_rank_value_and_hand(), h.hand_rank_value(), h.hand_rank_value_validated())
+                (h.hand_rank_value_and_hand(), h.hand_rank_value(), h.hand_rank_value_validated(), h.hand_rank().value, h.hand_rank_validated().value)
             } else {
                 let h = Seven::from([ws[0], ws[1], ws[2], ws[3], ws[4], ws[5], ws[6]]);
-                (h.hand_rank_value_and_hand(), h.hand_rank_value(), h.hand_rank_value_validated())
+                (h.hand_rank_value_and_hand(), h.hand_rank_value(), h.hand_rank_value_validated(), h.hand_rank().value, h.hand_rank_validated().value)
             }
         });
-        let Some(((v, hand), v2, vv)) = got else {
+        let Some(((v, hand), v2, vv, v3, v4)) = got else {
             s.fail("ranking panics on distinct real cards", &join(&ws), "a value", "panic");
             return;
         };
         match prop {
             "C02" => {
-                if !(v == best && v2 == best && vv == best) {
+                if !(v == best && v2 == best && vv == best && v3 == best && v4 == best) {
                     // name the slot combination that holds the best five
                     let row = rows.iter().find(|r| o5([idx[r[0]], idx[r[1]], idx[r[2]], idx[r[3]], idx[r[4]]]) == best).unwrap();
-                    s.fail(&format!("{n}-card value is not the best five-card value it contains (best five in slots {row:?})"), &join(&ws), &best.to_string(), &format!("{v} {v2} {vv}"));
+                    s.fail(&format!("{n}-card value is not the best five-card value it contains (best five in slots {row:?})"), &join(&ws), &best.to_string(), &format!("{v} {v2} {vv} {v3} {v4}"));
                 }
             }
             "C03" => {
